@@ -28,8 +28,21 @@ def gen_family(rng):
     """signatures aimed at the unification machinery: one index joining many physical axes (three co-indexed operands,
     one of them diagonal; an index repeated inside an operand), a summed index tied to output indices by a diagonal
     (Viterbi pointers), and outputs that permute indices along which every operand is constant"""
-    fam = rng.choice(['same3', 'same3', 'repeat', 'tied', 'tied', 'bcast', 'alias', 'alias'])
+    fam = rng.choice(['same3', 'same3', 'repeat', 'tied', 'tied', 'bcast', 'alias', 'alias', 'disjoint', 'disjoint', 'disjoint'])
     ty = ('n', rng.choice([2, 3, 3]))
+    if fam == 'disjoint':
+        # operands co-indexed on an index of DISJOINT-UNION type (at the top, or inside a product) and on a further index
+        # met later in the loop: patterns that back different summands make the result the semiring zero -- a failure
+        # that must survive the successful unifications that follow it
+        U = ('u', [('n', rng.choice([1, 2])), ('n', rng.choice([1, 2]))])
+        ti = rng.choice([U, U, ('x', [U, ('n', 2)]), ('x', [('n', 2), U]), ('u', [('n', 1), ('n', 1), ('n', 2)])])
+        tj = rng.choice([('n', 2), ('n', 3), ('x', [('n', 2), ('n', 2)])])
+        form = rng.choice(['ij,ij', 'ij,ij', 'i,i,ij', 'ij,i,j', 'ij,ji', 'i,ij,i', 'i,i'])
+        inputs = [list(x) for x in form.split(',')]
+        names = sorted({n for lab in inputs for n in lab})
+        out = rng.choice([['j'], ['j'], [], ['i'], ['i', 'j'], ['j', 'i']])
+        out = [n for n in out if n in names]
+        return {n: (ti if n == 'i' else tj) for n in names}, inputs, out, {'share': None, 'fam': 'disjoint'}
     if fam == 'alias':
         # the SAME tensor object (or a transposed view of it, which shares its physical axes) as two operands; index types
         # with embeddings / products so that no virtual axis need be a bare physical axis
